@@ -67,7 +67,7 @@ CLAIMS.update({
              'rendered directly). Concatenation over multi-token pictures is bounded (thorough tier: two tokens).',
              'Verus contracts (value->record) + Kani full-domain harnesses (record->text, modular with helper markers)', K_NOTE),
     'C05': V('record -> value (TryFrom<NaiveDateTime> x6, microsecond carry, exact errors) is proved in Verus for every field record; text -> record is '
-             'BOUNDED: scanner contracts on every input up to 8-12 bytes and parse_internal on every one-token picture with ASCII text <= 6 bytes and a '
+             'BOUNDED: scanner contracts on every input up to 8-12 bytes and parse_internal on every one-token picture with ASCII text <= 4 bytes and a '
              'symbolic clock, against a reference written from the property. Multi-field pictures are not reached end to end '
              '(argued by induction over the field list, not an obligation).',
              'Verus contracts (record->value) + Kani scanner contracts and one-token parse against a reference (bounded)', K_NOTE),
@@ -86,7 +86,7 @@ CLAIMS.update({
              'Kani full-domain harnesses on the real Serialize/Deserialize impls (compact form) + Verus laws', K_NOTE),
     'C18': K('proof', 'With chrono::Local::now replaced by a symbolic clock built through chrono\'s own constructors: Date/Timestamp/OracleDate::now and '
              'TryFrom<Time> report the clock for every clock in years 1..9999 and fail outside (complete). Defaulting of missing fields, year completion '
-             'and clock independence are checked by the bounded one-token parse obligation (symbolic clock, text <= 6 bytes).',
+             'and clock independence are checked by the bounded one-token parse obligation (symbolic clock, text <= 4 bytes).',
              'Kani with a stubbed symbolic clock; bounded one-token parse against a reference', K_NOTE),
     'C19': K('model_checking', 'Bounded: FormatParser against a reference longest-match tokenizer written from the property, on EVERY byte string of length <= 5 '
              '(quick) / 6 (thorough), first token of every 8-byte window, blank runs 1..600, the 36/37 token limit. No unbounded obligation exists for '
@@ -105,13 +105,13 @@ NOT_REACHED = {
             'LazyFormat / Display::to_string (std ToString panics on Err by design; the property speaks of the text sink)'],
     'C04': ['pictures of more than two tokens end to end (concatenation is argued from the loop over fields)',
             'interval day counts >= 1000 (core::fmt)'],
-    'C05': ['pictures of more than one token end to end; text longer than 6 bytes through parse_internal',
+    'C05': ['pictures of more than one token end to end; text longer than 4 bytes through parse_internal',
             'seven-to-nine digit fraction rounding runs only in the thorough tier'],
     'C06': ['format-then-parse executed end to end on any picture (text half covered per token by C04/C05 obligations)'],
     'C08': ['Timestamp::add_days for offsets whose product with 86 400 000 000 is inexact (the logic after the product is proved for every double)'],
     'C14': ['symbolic x symbolic f64 multiply/divide (thorough-tier harnesses, expected to time out); the 2^-52 relative-error clause is IEEE-754\'s guarantee for one correctly rounded operation (assumed)'],
     'C15': ['the text form end to end (once_cell::Lazy cannot be compiled by Kani); serde dispatch glue'],
     'C16': ['sub_date (f64 quotient) and add_days offsets with inexact products: thorough tier only'],
-    'C18': ['chrono::Local::now itself; pictures of more than one token; text longer than 6 bytes'],
+    'C18': ['chrono::Local::now itself; pictures of more than one token; text longer than 4 bytes'],
     'C19': ['pictures longer than 6 bytes (5 in the quick tier) except blank runs up to 600; 36/37 token limit on one concrete picture family'],
 }
